@@ -624,6 +624,7 @@ func (d *Driver) FamDispatch(perType, G int) {
 						_, _ = csproto.GrpcCodec{}.Marshal(m)
 					}
 					pc.grow(m)
+					sizeBefore := csproto.Size(m) // asked for before anything re-marshals the message
 					var b []byte
 					b, err = csproto.Marshal(m)
 					e.Stab = retain(b)
@@ -632,7 +633,7 @@ func (d *Driver) FamDispatch(perType, G int) {
 					}
 					fresh := pc.zero()
 					e.X1 = b2i(rt.unmarshal(b, fresh) == nil && rt.equal(m, fresh))
-					e.Szok = b2i(csproto.Size(m) == len(b))
+					e.Szok = b2i(csproto.Size(m) == len(b) && sizeBefore == len(b))
 					gb, gerr := csproto.GrpcCodec{}.Marshal(m)
 					f2 := pc.zero() // (not byte equality: map fields are marshaled in random order)
 					e.Same = b2i(gerr == nil && len(gb) == len(b) && rt.unmarshal(gb, f2) == nil && rt.equal(m, f2))
